@@ -302,7 +302,7 @@ fn main() {
   }
   let mut ctx = Ctx::from_args("C26", "other", &args);
   let quick = ctx.quick();
-  ctx.explanation = Some("Sanitizer-style runtime monitors around the real C ABI function, executed in worker processes: guard pages (PROT_NONE page directly after the caller's buffer, so a 1-byte overrun is a SIGSEGV observed by the parent), 0xA5 canaries before the buffer and after the NUL, byte-exact comparison with the full response, exhaustive over buffer capacities 0..full_len+margin per (index, query, cursor, aggregation JSON, aggs_len) tuple, plus the null-argument matrix. The aggregation JSON ends at a guard page, so a read past aggs_len faults. Thorough additionally runs the same matrix with exact-size heap buffers under an AddressSanitizer build and a reduced matrix under Miri when those builds are available (recorded below).".into());
+  ctx.explanation = Some("Sanitizer-style runtime monitors around the real C ABI function, executed in worker processes: guard pages (PROT_NONE page directly after the caller's buffer, so a 1-byte overrun is a SIGSEGV observed by the parent), 0xA5 canaries before the buffer and after the NUL, byte-exact comparison with the full response, exhaustive over buffer capacities 0..full_len+margin per (index, query, cursor, aggregation JSON, aggs_len) tuple, plus the null-argument matrix. The aggregation JSON ends at a guard page, so a read past aggs_len faults. Thorough additionally runs the same matrix with exact-size heap buffers under an AddressSanitizer build when it is available. Both tiers also run a reduced matrix inside the Miri interpreter (harness/vmiri: exact-size allocations for the output buffer, the aggregation bytes and the C strings; any out-of-allocation access, uninitialised read or invalid pointer use is reported by the interpreter; counters calls[miri], miri_capacities).".into());
   ctx.rule = "evaluations = searchlite_search calls judged; distinct_nontrivial = distinct (tuple, capacity) pairs for tuples whose search succeeded (capacities below, at and above the full length are all covered per tuple).".into();
   ctx.assumptions = vec![
     "the caller honours the documented contract (valid C strings, aggs_json pointing to aggs_len readable bytes, buffer of buf_cap writable bytes)".into(),
@@ -366,6 +366,51 @@ fn main() {
       if l.samples.is_empty() {
         l.sample(json!({"seed": seed, "mode": mode, "tuples": tuples, "capacities": v["capacities"], "calls": calls}));
       }
+    }
+  });
+  // Miri lane: the same C ABI functions, called from Rust inside the Miri interpreter with exact-size
+  // allocations for every pointer argument (harness/vmiri). The interpreter reports any access outside
+  // an allocation, uninitialised reads and invalid pointer use; the program checks prefix/NUL/return
+  // value itself. quick: one process, reduced matrix; thorough: 8 seeds, full matrix.
+  let harness = PathBuf::from(std::env::var("VERIF_HARNESS").unwrap_or_else(|_| "/verif/harness".into()));
+  let miri_cases = if std::env::var("VERIF_NO_MIRI").is_ok() || !harness.join("vmiri").exists() { 0 } else { ctx.n(1, 8) };
+  ctx.set("miri_lane", json!(miri_cases > 0));
+  ctx.run_cases("miri", miri_cases, |rng: &mut Rng, l: &mut Local, scratch| {
+    let seed = rng.next_u64() % 1_000_000;
+    let dir = scratch.join("miri-idx");
+    let mut cmd = Command::new("cargo");
+    cmd.current_dir(&harness).arg("+nightly").arg("miri").arg("run").arg("--offline").arg("-q").arg("-p").arg("vmiri").arg("--").arg(&dir).arg(seed.to_string()).arg(if quick { "small" } else { "full" });
+    cmd.env("MIRIFLAGS", "-Zmiri-disable-isolation -Zmiri-ignore-leaks").env_remove("RUSTFLAGS").env_remove("CARGO_TARGET_DIR").env_remove("RUSTUP_TOOLCHAIN");
+    let o = match sandbox::run(cmd, None, Duration::from_secs(if quick { 900 } else { 3000 })) {
+      Ok(o) => o,
+      Err(e) => {
+        l.inconclusive(format!("miri spawn: {e}"));
+        return;
+      }
+    };
+    let (out, err) = (o.stdout_str(), o.stderr_str());
+    if let Some(line) = out.lines().find(|x| x.starts_with("CONTRACT ")) {
+      let stem: String = line.chars().filter(|c| !c.is_ascii_digit()).take(80).collect();
+      l.fail(format!("miri-lane-contract:{stem}"), format!("under Miri the C search function broke its contract: {line}"), json!({"seed": seed, "stdout": out}));
+      return;
+    }
+    if let Some(pos) = err.find("error: Undefined Behavior") {
+      let first: String = err[pos..].lines().next().unwrap_or("").chars().filter(|c| !c.is_ascii_digit()).take(120).collect();
+      l.fail(format!("miri-ub:{first}"), format!("Miri reported undefined behaviour while driving the C ABI: {}", err[pos..].chars().take(1500).collect::<String>()), json!({"seed": seed, "stderr": err[pos..].chars().take(4000).collect::<String>()}));
+      return;
+    }
+    let Some(obs) = out.lines().find(|x| x.starts_with("MIRI-OBSERVED ")) else {
+      l.inconclusive(format!("miri run gave no verdict (timed_out={}, code {:?}): {}", o.timed_out, o.code, err.chars().rev().take(400).collect::<String>().chars().rev().collect::<String>()));
+      return;
+    };
+    let num = |k: &str| -> u64 { obs.split_whitespace().find_map(|kv| kv.strip_prefix(&format!("{k}="))).and_then(|v| v.parse().ok()).unwrap_or(0) };
+    l.evals_add(num("calls"));
+    l.count("calls[miri]", num("calls"));
+    l.count("miri_capacities", num("capacities"));
+    l.count("miri_truncating_calls", num("truncating"));
+    l.count("miri_null_argument_cases", num("null_cases"));
+    for i in 0..num("capacities") {
+      l.nontrivial(&(seed, "miri", i));
     }
   });
   std::process::exit(ctx.finish());
